@@ -215,6 +215,10 @@ fn probes() -> Vec<(u64, usize)> {
     vec![
         (0, 0), (0, 1), (0, 32), (0, 64), (0, 65), (0, 131), (1, 64), (63, 2), (64, 64), (65, 130), (100, 31), (1000, 0),
         (64 * (1u64 << 32) - 65, 131), (64 * ((1u64 << 32) - 16) - 1, 64 * 17 + 2), (u64::MAX - 70, 70), (u64::MAX, 0),
+        // a 16-block batch that *starts* 1..15 blocks below a carry boundary (2^32) or below 2^31
+        // (where a carry detector looking at the sign bit would trip)
+        (64 * ((1u64 << 32) - 1), 64 * 16), (64 * ((1u64 << 32) - 5), 64 * 16 + 1), (64 * ((1u64 << 32) - 9) - 3, 64 * 17), (64 * ((1u64 << 32) - 13), 64 * 16),
+        (64 * ((1u64 << 31) - 3), 64 * 16 + 7), (64 * ((1u64 << 31) - 11) - 1, 64 * 17),
     ]
 }
 
@@ -458,7 +462,7 @@ fn run(args: &Args, rep: &mut Report) {
     let tr = rep.get("transitions");
     rep.counters.insert("traces_validated_against_impl".into(), tr);
     rep.configs.push(json!({"flavour": flavour(), "levels": levels.iter().map(|l| l.0).collect::<Vec<_>>()}));
-    rep.rule = "BFS over the real blake3_hasher from each initialiser (init, init_keyed, init_derive_key, init_derive_key_raw): update(next k bytes) over the fine alphabet (all paths, bounded total) and the coarse alphabet (deviation-bounded), reset from every state, merged on the live bytes of the struct; in every state finalize / finalize_seek at 16 (seek, out_len) probes (out_len 0 included, canaries around the output) vs the spec stream, queries leave every byte unchanged, zero-length updates (NULL, dangling, valid pointer) are no-ops, reset equals a fresh hasher, the two derive-key initialisers agree; for every dispatch mask the CPU supports; non-trivial = states reached by >= 2 updates".into();
+    rep.rule = "BFS over the real blake3_hasher from each initialiser (init, init_keyed, init_derive_key, init_derive_key_raw): update(next k bytes) over the fine alphabet (all paths, bounded total) and the coarse alphabet (deviation-bounded), reset from every state, merged on the live bytes of the struct; in every state finalize / finalize_seek at 22 (seek, out_len) probes (out_len 0 included, canaries around the output) vs the spec stream, queries leave every byte unchanged, zero-length updates (NULL, dangling, valid pointer) are no-ops, reset equals a fresh hasher, the two derive-key initialisers agree; for every dispatch mask the CPU supports; non-trivial = states reached by >= 2 updates".into();
     rep.extra.insert("bounds".into(), json!(cfgs(t).iter().map(|c| json!({"alphabet": c.name, "moves": c.moves, "deviations": c.deviations, "max_deviations": c.max_dev, "max_total_bytes": c.max_total})).collect::<Vec<_>>()));
     rep.assumptions.push("input content is stream A; 64-bit size_t".into());
     rep.assumptions.push("agreement with the Rust crate follows from both being compared with the same spec model on the same case space (C01-C03)".into());
